@@ -75,10 +75,11 @@ static void on_send(int d)
 	vw_dgram_free(d);
 }
 static void on_system(int proc, const char *cmd) { (void)proc; if (nsys < 8) snprintf(syscmds[nsys++], sizeof syscmds[0], "%s", cmd); }
-static void on_san(const char *sig) { (void)sig; xp_count(K_SAN, 1); }
+static void on_san(const char *sig) { if (hc_san_report(sig, 1, "the login-reply enumeration")) return; xp_count(K_SAN, 1); }
 
 static void viol(const char *what, const char *fmt, ...)
 {
+	if (hc_san_as) return;
 	char detail[380], sig[120];
 	va_list ap; va_start(ap, fmt); vsnprintf(detail, sizeof detail, fmt, ap); va_end(ap);
 	snprintf(sig, sizeof sig, "C13:%s", what);
@@ -249,7 +250,7 @@ int main(int argc, char **argv)
 	hc_args a = hc_parse(argc, argv, "C13");
 	thorough = a.thorough;
 	mk_fc();
-	xp_init("C13", a.tier, 1024, a.budget_s);
+	xp_init(hc_san_as ? hc_san_as : "C13", a.tier, 1024, a.budget_s);
 	/* self-test of the grammar */
 	if (allowed_command("PATH=/sbin:/bin ifconfig dns0 10.0.0.2 10.0.0.2 netmask 255.255.255.224") != 1 || allowed_command("PATH=/sbin:/bin ifconfig dns0 mtu 1130") != 2 ||
 	    allowed_command("PATH=/sbin:/bin ifconfig dns0 10.0.0.2 ;id 10.0.0.2 ;id netmask 255.255.255.224") || allowed_command("PATH=/sbin:/bin ifconfig dns0 mtu 200") ||
